@@ -102,10 +102,10 @@ namespace
 
     enum { V_PUSH, V_EMPLACE_BACK, V_INSERT, V_EMPLACE, V_INSERT_RANGE, V_ERASE_RANGE, V_ERASE_TAIL, V_POP, V_RESIZE, V_RESERVE, V_CLEAR,
            V_COPY_CTOR, V_MOVE_CTOR, V_COPY_ASSIGN, V_SELF_ASSIGN, V_MOVE_ASSIGN, V_COMPARE, V_AT, V_INSERT_SORTED, V_CTOR_N, V_CTOR_RANGE,
-           V_CTOR_ILIST, V_INSERT_INT, V_PUSH_ALIAS, V_EMPLACE_BACK_ALIAS, V_INSERT_ALIAS, V_EMPLACE_ALIAS, V_N };
+           V_CTOR_ILIST, V_INSERT_INT, V_PUSH_ALIAS, V_EMPLACE_BACK_ALIAS, V_INSERT_ALIAS, V_EMPLACE_ALIAS, V_ALGO, V_N };
     const char *V_NAME[] = {"push_back", "emplace_back", "insert", "emplace", "insert_range", "erase(range)", "erase(newend)", "pop_back", "resize", "reserve", "clear",
                             "copy_ctor", "move_ctor", "copy_assign", "self_assign", "move_assign", "compare", "at", "insert_sorted", "ctor(n)", "ctor(range)",
-                            "ctor(ilist)", "insert(int pos)", "push_back(own element)", "emplace_back(own element)", "insert(own element)", "emplace(own element)"};
+                            "ctor(ilist)", "insert(int pos)", "push_back(own element)", "emplace_back(own element)", "insert(own element)", "emplace(own element)", "std-algorithm"};
 
     template <class E> struct VecWorld : World
     {
@@ -418,6 +418,61 @@ namespace
                                 probe("equal_non_empty_vectors_compared");
                             }
                         }
+                        break;
+                    }
+                    case V_ALGO:
+                    {
+                        // the vector handed to the standard library: its iterators are plain random-access iterators, its
+                        // value_type / push_back are what std::back_inserter needs, swap is found for it
+                        size_t n0 = mx.size();
+                        switch (val % 7)
+                        {
+                        case 0: std::sort(x.begin(), x.end()); std::sort(mx.begin(), mx.end()); break;
+                        case 1: std::reverse(x.begin(), x.end()); std::reverse(mx.begin(), mx.end()); break;
+                        case 2:
+                            if (n0)
+                            {
+                                size_t k2 = (size_t)mod(arg(o, 2), (int64_t)n0);
+                                std::rotate(x.begin(), x.begin() + k2, x.end());
+                                std::rotate(mx.begin(), mx.begin() + k2, mx.end());
+                            }
+                            break;
+                        case 3:
+                        {
+                            int probe_v = n0 ? mx[(size_t)mod(arg(o, 2), (int64_t)n0)] : val;
+                            auto it = std::find(x.begin(), x.end(), E(probe_v));
+                            auto jt = std::find(mx.begin(), mx.end(), probe_v);
+                            if ((size_t)std::distance(x.begin(), it) != (size_t)std::distance(mx.begin(), jt) || (size_t)std::distance(x.begin(), x.end()) != n0)
+                                violate("C02/std-algorithm", "std::find / std::distance over begin()..end(): position %td of %td, std::vector gives %td of %zu", std::distance(x.begin(), it), std::distance(x.begin(), x.end()), std::distance(mx.begin(), jt), n0);
+                            break;
+                        }
+                        case 4:
+                        {
+                            Vec &y = *v[u];
+                            if (m[u].size() + n0 > 200) break;
+                            std::copy(x.begin(), x.end(), std::back_inserter(y));
+                            m[u].insert(m[u].end(), mx.begin(), mx.end());
+                            break;
+                        }
+                        case 5:
+                        {
+                            using std::swap;
+                            swap(*v[0], *v[1]);
+                            std::swap(m[0], m[1]);
+                            break;
+                        }
+                        default:
+                        {
+                            long a = 0, b = 0;
+                            for (const E &e : x) a += val_of(e);
+                            for (int e : mx) b += e;
+                            size_t cnt = (size_t)std::count_if(x.begin(), x.end(), [&](const E &e) { return val_of(e) >= val; });
+                            size_t cnt2 = (size_t)std::count_if(mx.begin(), mx.end(), [&](int e) { return e >= val; });
+                            if (a != b || cnt != cnt2) violate("C02/std-algorithm", "range-for / std::count_if over the vector give sum %ld count %zu, std::vector %ld / %zu", a, cnt, b, cnt2);
+                            break;
+                        }
+                        }
+                        probe("handed_to_a_standard_algorithm");
                         break;
                     }
                     case V_AT:
